@@ -1288,6 +1288,80 @@ func c01r9(rc *core.RC) {
 		name, ok := clauseReturnsCall(info, cc)
 		rc.Check(ok && strings.Contains(name, "StringCode"), "encoder.mapKeyCode/kind "+k, cc.Pos(), "integer keys are compiled with the quoting constructor (%s)", name)
 	}
+	// (c) a key of string kind is its own text even when its type implements TextMarshaler
+	// (encoding/json's resolveKeyName tests the kind first)
+	isStringKindTest := func(e ast.Expr, op token.Token) bool {
+		be, ok := core.Unparen(e).(*ast.BinaryExpr)
+		if !ok || be.Op != op {
+			return false
+		}
+		for _, side := range []ast.Expr{be.X, be.Y} {
+			if sel, isSel := core.Unparen(side).(*ast.SelectorExpr); isSel && sel.Sel.Name == "String" {
+				if c, isConst := info.Uses[sel.Sel].(*types.Const); isConst && c.Pkg() != nil && c.Pkg().Path() == "reflect" {
+					return true
+				}
+			}
+		}
+		return false
+	}
+	var conjuncts func(e ast.Expr) []ast.Expr
+	conjuncts = func(e ast.Expr) []ast.Expr {
+		if be, ok := core.Unparen(e).(*ast.BinaryExpr); ok && be.Op == token.LAND {
+			return append(conjuncts(be.X), conjuncts(be.Y)...)
+		}
+		return []ast.Expr{e}
+	}
+	found := 0
+	ast.Inspect(fd.Body, func(m ast.Node) bool {
+		r, ok := m.(*ast.ReturnStmt)
+		if !ok || len(r.Results) == 0 {
+			return true
+		}
+		c, isCall := core.Unparen(r.Results[0]).(*ast.CallExpr)
+		if !isCall || !strings.HasSuffix(core.CalleeName(info, c), "marshalTextCode") {
+			return true
+		}
+		found++
+		excluded := false
+		path := core.PathTo(fd.Body, r)
+		for i, pn := range path {
+			switch x := pn.(type) {
+			case *ast.CaseClause:
+				for _, l := range x.List {
+					for _, cj := range conjuncts(l) {
+						if isStringKindTest(cj, token.NEQ) {
+							excluded = true
+						}
+					}
+				}
+			case *ast.IfStmt:
+				if i+1 < len(path) && path[i+1] == ast.Node(x.Body) {
+					for _, cj := range conjuncts(x.Cond) {
+						if isStringKindTest(cj, token.NEQ) {
+							excluded = true
+						}
+					}
+				}
+			case *ast.BlockStmt:
+				// an earlier `if kind == reflect.String { return … }` in the same block
+				for _, st := range x.List {
+					if i+1 < len(path) && st == path[i+1] {
+						break
+					}
+					if ifs, isIf := st.(*ast.IfStmt); isIf && isStringKindTest(ifs.Cond, token.EQL) && len(ifs.Body.List) > 0 {
+						if _, rets := ifs.Body.List[len(ifs.Body.List)-1].(*ast.ReturnStmt); rets {
+							excluded = true
+						}
+					}
+				}
+			}
+		}
+		rc.Check(excluded, fmt.Sprintf("encoder.mapKeyCode/TextMarshaler-key#%d not-for-string-kinds", found), r.Pos(), "the MarshalText path for keys is taken only when the key's kind is not String: encoding/json writes a string-kind key as its own text even if the type implements TextMarshaler")
+		return true
+	})
+	if found == 0 {
+		rc.Unknown("encoder.mapKeyCode/TextMarshaler-key", fd.Pos(), "no return of marshalTextCode found")
+	}
 }
 
 // ---- C01.R10 ptrToUint64 reads exactly the number of bits it is asked for ----
@@ -1353,6 +1427,181 @@ func c01r10(rc *core.RC) {
 			if !seen[b] {
 				rc.Bad(fmt.Sprintf("%s.ptrToUint64/case %d", pk, b), fd.Pos(), "no clause for bitSize %d", b)
 			}
+		}
+	}
+}
+
+// ---- C01.R11 omitempty knows that a zero-length array is empty ----
+
+// encoding/json's emptiness test is by kind; for arrays it is len == 0, which depends on the type
+// alone. The interpreters have no emptiness test in their OmitEmptyArray handlers (they write the key
+// and hand over to the array opcodes), so the decision has to be taken when the struct is compiled:
+// a field with omitempty whose type is an array of length 0 is left out of the field list. The rule
+// looks for that decision in the struct compilation of package encoder, or else for a length test in
+// every OmitEmptyArray handler.
+func c01r11(rc *core.RC) {
+	p := rc.P
+	key := "encoder/omitempty-zero-length-array"
+	// (a) compile-time: a branch whose condition mentions IsOmitEmpty, reflect.Array and Len() == 0 and that skips the field
+	var at token.Pos
+	for _, fd := range p.Funcs("encoder") {
+		if fd.Body == nil {
+			continue
+		}
+		info := p.Info(fd)
+		ast.Inspect(fd.Body, func(m ast.Node) bool {
+			ifs, ok := m.(*ast.IfStmt)
+			if !ok {
+				return true
+			}
+			omit, arr, zero := false, false, false
+			ast.Inspect(ifs.Cond, func(x ast.Node) bool {
+				switch y := x.(type) {
+				case *ast.SelectorExpr:
+					if y.Sel.Name == "IsOmitEmpty" {
+						omit = true
+					}
+					if y.Sel.Name == "Array" {
+						if c, isConst := info.Uses[y.Sel].(*types.Const); isConst && c.Pkg() != nil && c.Pkg().Path() == "reflect" {
+							arr = true
+						}
+					}
+				case *ast.BinaryExpr:
+					if y.Op == token.EQL {
+						if c, isCall := core.Unparen(y.X).(*ast.CallExpr); isCall {
+							if sel, isSel := core.Unparen(c.Fun).(*ast.SelectorExpr); isSel && sel.Sel.Name == "Len" {
+								if v, isConst := core.ConstInt(info, y.Y); isConst && v == 0 {
+									zero = true
+								}
+							}
+						}
+					}
+				}
+				return true
+			})
+			if !(omit && arr && zero) || len(ifs.Body.List) == 0 {
+				return true
+			}
+			if br, isBranch := ifs.Body.List[len(ifs.Body.List)-1].(*ast.BranchStmt); isBranch && br.Tok == token.CONTINUE {
+				at = ifs.Pos()
+				rc.Touch(p.FuncName(fd))
+			}
+			return true
+		})
+	}
+	if at != token.NoPos {
+		rc.OK(key, at, "an omitempty field of a zero-length array type is left out when the struct is compiled")
+		return
+	}
+	// (b) run-time: every OmitEmptyArray handler tests a length
+	t := loadOpTable(rc)
+	if t == nil {
+		return
+	}
+	all := true
+	n := 0
+	for _, vm := range []string{"vm", "vm_indent", "vm_color", "vm_color_indent"} {
+		cl, _ := opClauses(rc, vm, t)
+		for l, cc := range cl {
+			if !strings.Contains(l, "OmitEmptyArray") || strings.Contains(l, "ArrayPtr") {
+				continue
+			}
+			n++
+			tests := false
+			ast.Inspect(cc, func(x ast.Node) bool {
+				if sel, ok := x.(*ast.SelectorExpr); ok && (sel.Sel.Name == "Length" || sel.Sel.Name == "Len") {
+					tests = true
+				}
+				return true
+			})
+			if !tests {
+				all = false
+			}
+		}
+	}
+	rc.Check(all && n > 0, key, token.NoPos, "an omitempty field of array type [0]T is omitted: dropped when the struct is compiled, or tested for length 0 by every OmitEmptyArray handler (%d handlers looked at)", n)
+}
+
+// ---- C01.R12 omitempty on marshaler types uses encoding/json's emptiness ----
+
+// encoding/json decides emptiness by kind before it looks for a marshaler: false, 0, "", nil pointer
+// or interface, and a map, slice or array of length 0. The interpreters take that decision for
+// marshaler-typed fields through encoder.IsNilForMarshaler. (1) Its kind switch must measure Map,
+// Slice and Array by length. (2) Every OmitEmpty handler of a MarshalJSON or MarshalText field
+// (the pointer-field variants aside, which are empty only when nil) must call it.
+func c01r12(rc *core.RC) {
+	p := rc.P
+	fd := p.Func("encoder", "IsNilForMarshaler")
+	if fd == nil {
+		rc.Unknown("encoder.IsNilForMarshaler", token.NoPos, "not found")
+		return
+	}
+	rc.Touch("encoder.IsNilForMarshaler")
+	info := p.Info(fd)
+	kss := kindSwitches(info, fd)
+	if len(kss) == 0 {
+		rc.Unknown("encoder.IsNilForMarshaler/kind-switch", fd.Pos(), "kind switch not found")
+		return
+	}
+	ks := kss[0]
+	for _, k := range []string{"Map", "Slice", "Array", "String"} {
+		key := "encoder.IsNilForMarshaler/kind " + k
+		cc := ks.clause[k]
+		if cc == nil {
+			rc.Bad(key, ks.sw.Pos(), "values of kind %s are never empty here; encoding/json: empty when the length is 0", k)
+			continue
+		}
+		byLen := false
+		ast.Inspect(cc, func(m ast.Node) bool {
+			if c, ok := m.(*ast.CallExpr); ok {
+				if n := core.CalleeName(info, c); n == "reflect.Value.Len" || n == "len" {
+					byLen = true
+				}
+			}
+			return true
+		})
+		rc.Check(byLen, key, cc.Pos(), "a value of kind %s is empty when its length is 0 (encoding/json isEmptyValue)", k)
+	}
+	for _, k := range []string{"Bool", "Int", "Int8", "Int16", "Int32", "Int64", "Uint", "Uint8", "Uint16", "Uint32", "Uint64", "Uintptr", "Float32", "Float64", "Interface", "Ptr"} {
+		rc.Check(ks.clause[k] != nil, "encoder.IsNilForMarshaler/kind "+k, ks.sw.Pos(), "kind %s has an emptiness clause", k)
+	}
+	t := loadOpTable(rc)
+	if t == nil {
+		return
+	}
+	for _, vm := range []string{"vm", "vm_indent", "vm_color", "vm_color_indent"} {
+		cl, _ := opClauses(rc, vm, t)
+		vinfo := p.Pkg(vm).TypesInfo
+		var labels []string
+		for l := range cl {
+			labels = append(labels, l)
+		}
+		sort.Strings(labels)
+		n := 0
+		for _, l := range labels {
+			// the labels of one clause are joined by commas; the last one names the handler proper
+			parts := strings.Split(l, ",")
+			last := parts[len(parts)-1]
+			if !(strings.Contains(last, "OmitEmptyMarshalJSON") || strings.Contains(last, "OmitEmptyMarshalText")) || strings.HasSuffix(last, "Ptr") {
+				continue
+			}
+			if body := cl[l].Body; len(body) > 0 {
+				if br, isBranch := body[len(body)-1].(*ast.BranchStmt); isBranch && br.Tok == token.FALLTHROUGH {
+					continue // the pointer-head prologue: the decision is taken in the clause it falls into
+				}
+			}
+			n++
+			calls := false
+			ast.Inspect(cl[l], func(m ast.Node) bool {
+				if c, ok := m.(*ast.CallExpr); ok && core.CalleeName(vinfo, c) == "encoder.IsNilForMarshaler" {
+					calls = true
+				}
+				return true
+			})
+			rc.Check(calls, fmt.Sprintf("%s.Run/%s uses-emptiness-test", vm, last), cl[l].Pos(), "the omitempty handler of a marshaler-typed field asks encoder.IsNilForMarshaler whether the value is empty")
+		}
+		if n < 4 {
+			rc.Unknown(vm+".Run/omitempty-marshaler-handlers", token.NoPos, "found %d handlers (4 confirmed)", n)
 		}
 	}
 }
